@@ -279,6 +279,13 @@ class Alias(torch.nn.Module):
 def fresh(kind, seed=0):
 	if kind == "alias":
 		return Alias(seed).eval()
+	if kind == "bn-mixed":
+		# root in eval mode, the batch-norm layer left in train mode (as
+		# after model.eval(); model.norm.train()): a call that forgets to
+		# switch sub-modules to eval updates the running statistics
+		m = Net("bn", seed).eval()
+		m.body[1].train()
+		return m
 	return Net(kind, seed).eval()
 
 
@@ -498,6 +505,9 @@ def plan(tier, seed):
 		kinds = ("dls",) if quick else ("dls", "bn", "alias")
 		if quick and op in ("dls", "marginalize_dls", "predict_args"):
 			kinds = ("dls", "alias", "bn")
+		if op in ("predict", "predict_args", "ism", "marginalize", "greedy",
+			"pairwise", "dls_tensor_refs"):
+			kinds = tuple(kinds) + ("bn-mixed",)
 		for kind in kinds:
 			units.append({"cls": "events", "op": op, "model": kind,
 				"tier": tier, "weight": 6})
@@ -527,7 +537,7 @@ def plan(tier, seed):
 	per = 12 if quick else 40
 	for i in range(0, len(hs), per):
 		units.append({"cls": "histories", "hs": hs[i:i + per],
-			"model": ("bn", "dls", "alias")[(i // per) % 3],
+			"model": ("bn", "dls", "alias", "bn-mixed")[(i // per) % 4],
 			"weight": per / 3})
 	return units
 
